@@ -473,12 +473,25 @@ fn load_toplevel_items_(
                     // import. We don't need to load the namespace
                     // again, but we do need to add the values to the
                     // current namespace.
-                    let imported_ns = env.get_namespace(&abs_path).unwrap();
-                    insert_imported_namespace(
-                        import_info.namespace_sym.as_ref(),
-                        Rc::clone(&namespace),
-                        imported_ns,
-                    );
+                    match env.get_namespace(&abs_path) {
+                        Some(imported_ns) => {
+                            insert_imported_namespace(
+                                import_info.namespace_sym.as_ref(),
+                                Rc::clone(&namespace),
+                                imported_ns,
+                            );
+                        }
+                        None => {
+                            // The previous import of this file
+                            // failed (it couldn't be read or parsed),
+                            // which we've already reported.
+                            insert_placeholder_namespace(
+                                abs_path.clone(),
+                                import_info.namespace_sym.as_ref(),
+                                Rc::clone(&namespace),
+                            );
+                        }
+                    }
 
                     continue;
                 }
